@@ -369,6 +369,11 @@ class ImplWorld:
 
     def world_json(self):
         self._check_handed()
+        # a mapping given as `initial_context` is the client's: nobody writes into it
+        for mine, was in self.__dict__.get('_ctx_objects', {}).values():
+            if mine != was and not any(a[0] == 'ctx' for a in self.anomalies):
+                self.anomalies.append(['ctx', 'the mapping given as initial_context was written to: it held %s, it holds %s now'
+                                       % (sorted(was.items()), sorted((k, repr(v)[:30]) for k, v in mine.items())[:12])])
         w = {'slots': [self.slot_json(i) for i in range(len(self.slots))],
              'callbacks': [[e.j if isinstance(e, Snap) else enc_event(e) for e in cb] for cb in self.callbacks]}
         if self.anomalies:
@@ -566,6 +571,23 @@ class ImplWorld:
         self.cur_clock = None
         return {'steps': steps, 'err': err, 'eff': list(self.log)}
 
+    def op_execute_real(self, i, clock, max_steps):
+        """`Interpreter.execute(max_steps=…)` itself (implementation only: when a step raises, `execute` loses the
+        steps it had collected, which the model does not)"""
+        it = self.slots[i]
+        self._set_clock(it, clock)
+        self.top = i
+        del self.log[:]
+        err, steps = None, []
+        self.cur_clock = clock
+        try:
+            got = it.execute(max_steps=max_steps) if max_steps > 0 else it.execute()
+            steps = [self.macro_json(i, ms) for ms in got]
+        except Exception as e:   # noqa
+            err = err_json(self, i, e)
+        self.cur_clock = None
+        return {'steps': steps, 'err': err, 'eff': list(self.log), 'real': True}
+
     def _add_listener(self, i, spec, listener):
         self.listeners.append(listener)
         self.listener_spec.append(spec)
@@ -636,7 +658,12 @@ class ImplWorld:
 
         def klass(statechart, clock=None):
             # the interpreter the listener will drive (captured here: no private attribute is read)
-            created.append(Interpreter(statechart, clock=clock, evaluator_klass=make_evaluator(world, j)))
+            kw = {}
+            shared = list(world.__dict__.get('_ctx_objects', {}).values())
+            if shared:
+                # a client that gives all its interpreters the same configuration mapping
+                kw['initial_context'] = shared[0][0]
+            created.append(Interpreter(statechart, clock=clock, evaluator_klass=make_evaluator(world, j), **kw))
             return created[-1]
         if self.prop_instance:
             # the form of sismic < 1.4: a ready-made interpreter (born at the time the monitored one shows)
